@@ -22,6 +22,8 @@ pub struct Eng {
     pub out_eof: bool,
     /// stdout lines read but not yet consumed by the session logic
     pub pending: std::collections::VecDeque<(Src, String)>,
+    /// bound (clock ticks) on the CPU time of the process' main thread during one wait; None = no bound
+    pub busy_main_ticks: Option<u64>,
 }
 
 #[derive(Debug, PartialEq)]
@@ -33,6 +35,18 @@ pub enum Wait {
     Closed,
     /// still burning CPU / printing after the (generous) outer limit: inconclusive
     Slow,
+    /// the thread that reads the commands (the process' main thread) used more CPU time than `busy_main_ticks`
+    /// since the wait began without producing the awaited line
+    Busy,
+}
+
+/// utime + stime of the main thread alone (/proc/pid/task/pid/stat): a logical clock that other threads' work and
+/// the load of the machine do not advance
+fn main_thread_ticks(pid: u32) -> u64 {
+    let Ok(s) = std::fs::read_to_string(format!("/proc/{}/task/{}/stat", pid, pid)) else { return 0 };
+    let Some(i) = s.rfind(')') else { return 0 };
+    let f: Vec<&str> = s[i + 1..].split_whitespace().collect();
+    f.get(11).and_then(|x| x.parse::<u64>().ok()).unwrap_or(0) + f.get(12).and_then(|x| x.parse::<u64>().ok()).unwrap_or(0)
 }
 
 fn cpu_ticks(pid: u32) -> u64 {
@@ -85,7 +99,7 @@ impl Eng {
             let _ = tx2.send((Src::Eof(false), String::new()));
         });
         let pid = child.id();
-        Ok(Eng { child, stdin, rx, log: vec![], pid, out_eof: false, pending: Default::default() })
+        Ok(Eng { child, stdin, rx, log: vec![], pid, out_eof: false, pending: Default::default(), busy_main_ticks: None })
     }
 
     pub fn send(&mut self, line: &str) {
@@ -132,7 +146,13 @@ impl Eng {
         let t0 = Instant::now();
         let mut last_activity = Instant::now();
         let mut last_cpu = cpu_ticks(self.pid);
+        let main0 = main_thread_ticks(self.pid);
         loop {
+            if let Some(b) = self.busy_main_ticks {
+                if main_thread_ticks(self.pid).saturating_sub(main0) > b {
+                    return Wait::Busy;
+                }
+            }
             match self.next(Duration::from_millis(100)) {
                 Some((src, l)) => {
                     last_activity = Instant::now();
